@@ -86,6 +86,15 @@ MUTANTS = {
     'revert_F9_thousands_separators': ('C14', {'row_malformed', 'stats_mismatch'}, 'git:31af434', 'value with separators tears the row'),
     'revert_F10_missing_output_skipped': ('C14', {'row_malformed'}, 'git:fc44f1f', 'column dropped when the report lacks an output'),
     'revert_F11_json_addons_override': ('C10', {'json_mismatch'}, 'git:389d0cd', 'add-ons dictionary merged over the economics results in the JSON'),
+    'json_dump_of_reservoir_outputs_memoised_by_key_set': ('C08', {'history_dependent_result', 'stale_result'}, [
+        (G3, 'def main(enable_geophires_logging_config=True):', '_JSON_MEMO = {}\n\n\ndef main(enable_geophires_logging_config=True):'),
+        (G3, "    json_resrv = jsons.dumps(model.reserv.OutputParameterDict, indent=4, sort_keys=True, supress_warnings=True)",
+         "    json_resrv = _JSON_MEMO.setdefault(tuple(sorted(model.reserv.OutputParameterDict)),\n"
+         "                                       jsons.dumps(model.reserv.OutputParameterDict, indent=4, sort_keys=True, supress_warnings=True))")],
+        'the JSON next to the second report of a process carries the reservoir results of the first'),
+    'report_prints_vir_on_the_moic_line': ('C10', {'json_mismatch'}, [
+        (OUT, '{model.economics.ProjectMOIC.value:10.2f}', '{model.economics.ProjectVIR.value:10.2f}')],
+        'report line wired to another variable than the JSON entry of the same name'),
     'revert_F7_cli_exit_0_on_bare_sys_exit': ('C20', {'exit_status'}, 'git:9802755', 'bare sys.exit() -> exit status 0'),
     'hip_parser_drops_exponent': ('C10', {'parse_mismatch'}, [
         ('src/hip_ra/__init__.py', "([0-9eE.+-]+)", "([0-9.+-]+)")], 'HIP-RA-X fields printed in scientific notation vanish from the client result'),
